@@ -327,6 +327,16 @@ class Interp:
             self.exec_block(st.body, f)
             for item in st.items:
                 self.path.calls.append(("end-with:" + ast.unparse(item.context_expr), (), {}))
+        elif isinstance(st, ast.Delete):
+            for t in st.targets:
+                if not isinstance(t, ast.Subscript):
+                    raise Unsupported("del of a non-subscript")
+                base, key = self.eval(t.value, f), self.eval(t.slice, f)
+                if not isinstance(base, dict) or is_sym(key):
+                    raise Unsupported("del on a symbolic container")
+                if key not in base:
+                    raise Raised("KeyError", [key])
+                del base[key]
         elif isinstance(st, ast.Return):
             raise _Return(None if st.value is None else self.eval(st.value, f))
         elif isinstance(st, ast.Raise):
